@@ -11,7 +11,7 @@ from pedal.core.commands import (clear_report, compliment, explain, gently, give
                                  set_correct, suppress)
 from pedal.core.feedback import Feedback  # noqa: E402
 from pedal.core.report import MAIN_REPORT  # noqa: E402
-from pedal.resolvers import simple  # noqa: E402
+from pedal.resolvers import simple, full, sectional  # noqa: E402
 
 # The order stated in the property text (C01), independent of the code.
 SPEC_ORDER = ["highest", "syntax", "mistakes", "instructor", "algorithmic", "runtime", "student", "specification",
@@ -24,7 +24,7 @@ CATS = ["syntax", "Runtime", "runtime", "instructor", "algorithmic", "specificat
 PRIOS = [None, None, "high", "medium", "low", "highest", "lowest", "syntax", "student", "parser", "analyzer",
          "verifier", "instructor", "junk", "Runtime", "HIGH", "Low", "positive", "uncategorized"]
 KINDS = [None, "Mistake", "Compliment", "Instructional", "Result", "Hint"]
-LABELS = ["a", "b", "C", "set_correct_no_errors", "Feedback"]
+LABELS = ["a", "b", "C", "set_correct_no_errors", "Feedback", "MissingDocstring", ""]
 FIELDSETS = [{}, {}, {'k': 1}, {'k': 2, 'j': 1}, {'k': 'v'}, {'j': 1}]
 SCORES_GRID = [None, None, None, 0.25, 0.5, 1, 0, -0.25, "+10%", "10%", "-10%", "+5", "5", "-1", ".5", "+0.5",
                "+12.5%", 0.1, 0.2, 0.07, "33%", "+1%", "-0.05"]
@@ -40,22 +40,24 @@ def gen_case(rng, *, max_fb=5, malformed=False, score_rate=0.4, offgrid=False):
         kw = {}
         if how < 0.62:
             ctor = "Feedback"
-            kw = dict(label=rng.choice(LABELS), category=rng.choice(CATS), priority=rng.choice(PRIOS),
-                      kind=rng.choice(KINDS), muted=rng.choice([None, None, False, True]),
-                      unscored=rng.choice([None, None, False, True]),
-                      activate=rng.random() < 0.75, message="m%d" % i, title=rng.choice([None, "t%d" % i, ""]),
-                      correct=rng.choice([None, None, False, True]), fields=dict(rng.choice(FIELDSETS)),
+            kw = dict(label=rng.choice(LABELS), category=rng.choice(CATS + [""]), priority=rng.choice(PRIOS + [""]),
+                      kind=rng.choice(KINDS), muted=rng.choice([None, None, False, True, 0, 1]),
+                      unscored=rng.choice([None, None, False, True, 0]),
+                      activate=rng.random() < 0.75,
+                      message=rng.choice(["m%d" % i] * 6 + [""]),     # "" is a message (is not None), not "no message"
+                      title=rng.choice([None, "t%d" % i, ""]),
+                      correct=rng.choice([None, None, False, True, 0, 1]), fields=dict(rng.choice(FIELDSETS)),
                       valence=rng.choice([None, 1, 0, -1, -1]))
             if rng.random() < 0.2:
                 kw['else_message'] = rng.choice(["e%d" % i, ""])
             if rng.random() < 0.1:
                 del kw['message']
-                kw['message_template'] = "tmpl%d" % i
+                kw['message_template'] = rng.choice(["tmpl%d" % i, "tmpl%d" % i, ""])
         else:
             ctor = rng.choice(["gently", "explain", "compliment", "give_partial", "set_correct", "guidance", "gently",
                                "explain"])
             if ctor in ("gently", "explain", "compliment", "guidance"):
-                kw['message'] = "c%d" % i
+                kw['message'] = "c%d" % i if (ctor == "compliment" or rng.random() < 0.9) else ""
             if ctor == "give_partial":
                 kw['value'] = rng.choice([0.1, 0.25, "+10%", 1, "5%"])
             if rng.random() < 0.5:
@@ -210,8 +212,14 @@ def compare(real, model):
 # ---------------------------------------------------------------------------
 # Property oracles, written from the property text (not from the code).
 
+def spec_category(f):
+    # Only a MISSING category (None) is 'uncategorized'; an empty string is a category of its own
+    # ("any other category" in the statement), exactly like any other unlisted name.
+    return 'uncategorized' if f.category is None else f.category.lower()
+
+
 def spec_key(f):
-    cat = (f.category or 'uncategorized').lower()
+    cat = spec_category(f)
     pr = 'medium'
     if f.priority is not None:
         pr = f.priority.lower()
@@ -224,7 +232,7 @@ def spec_key(f):
 
 
 def spec_suppressed(f, sups):
-    fcat = (f.category or 'uncategorized').lower()
+    fcat = spec_category(f)
     for (c, l, flds) in sups:
         flds = flds or {}
         if c is not None:
@@ -385,3 +393,56 @@ def shrink(case, still_fails):
                 except Exception:
                     pass
     return cur
+
+
+# ---------------------------------------------------------------------------
+# The other two resolvers named in C01's anchors reuse merge/finalize; they must agree with simple.
+
+def oracle_other_resolvers(case):
+    """None if full/sectional agree with simple on this report, else (signature, what)."""
+    objs = build(case)
+    try:
+        base = simple.resolve()
+    except Exception:
+        return None                      # raising is simple's own matter (oracle_c01)
+    sups = case["sups"]
+    view = lambda r: (r.label, r.title, r.message, r.category, r.correct, score_hundredths(r.score))
+    try:
+        fr = full.resolve()
+    except Exception as e:
+        return ({"resolver": "full", "raises": type(e).__name__}, "full.resolve raised %s: %s" % (type(e).__name__, e))
+    if view(fr) != view(base):
+        return ({"resolver": "full", "differs": "result"}, "full %r vs simple %r" % (view(fr), view(base)))
+    # full.used is everything merge() incorporated (it also returns compliments and else-messages, which
+    # may well sort ahead of the shown feedback), so only membership of the shown one is required.
+    if base.used and not any(u is base.used[0] for u in fr.used):
+        return ({"resolver": "full", "differs": "used-missing"}, "the shown feedback is not in full.used")
+    for u in fr.used:
+        if spec_suppressed(u, sups):
+            return ({"resolver": "full", "used": "suppressed"}, "full.used contains suppressed feedback %r" % (u.label,))
+        if not ((bool(u) and not u.muted) or (not bool(u) and u.else_message)):
+            return ({"resolver": "full", "used": "ineligible"}, "full.used contains muted/untriggered feedback %r" % (u.label,))
+    try:
+        sr = sectional.resolve()
+    except Exception as e:
+        return ({"resolver": "sectional", "raises": type(e).__name__},
+                "sectional.resolve raised %s: %s" % (type(e).__name__, e))
+    trig = [f for f in objs if bool(f)]
+    groups = {}
+    for f in trig:
+        groups.setdefault(f.parent, []).append(f)
+    if set(sr.keys()) != set(groups.keys()):
+        return ({"resolver": "sectional", "differs": "groups"}, "groups %r vs %r" % (list(sr), list(groups)))
+    for g, members in groups.items():
+        elig = [f for f in members if spec_eligible(f, sups) and f.message is not None]
+        got = (sr[g].label, sr[g].title, sr[g].message)
+        if elig:
+            best = min(elig, key=lambda f: (spec_key(f), objs.index(f)))
+            exp = (best.label, best.title or best.label, best.message)
+        elif hidden(sups):
+            exp = ("set_correct_no_errors", "No Errors", "No errors reported.")
+        else:
+            exp = ("set_correct_no_errors", "Complete", "Great work!")
+        if got != exp:
+            return ({"resolver": "sectional", "differs": "shown"}, "group %r shows %r, expected %r" % (g, got, exp))
+    return None
